@@ -321,6 +321,8 @@ def run(pid, tier, seed, a, t0):
         try:
             outs = run_driver([dict(lines[i], prop=pid) for i in idx])
             for i, o in zip(idx, outs):
+                if hasattr(mod, "model_canon_for"):          # canonical form that depends on the case (e.g. "verifies iff the chosen key is the signer's")
+                    o = mod.model_canon_for(cases[i], o)
                 model_outs[i] = mod.model_canon(o) if hasattr(mod, "model_canon") else o
         except Exception as e:
             breaks.append({"kind": "correspondence-break", "what": f"model driver could not run: {e!r}"})
